@@ -554,7 +554,11 @@ func (x *g) tables(tops, ids []string) {
 			}
 			fmt.Fprintf(&x.sb, "%s  %s: %s", ind, c, x.pick(colTypes))
 			if x.p(30) {
-				fmt.Fprintf(&x.sb, " {constraint: %s}", x.pick([]string{"primary_key", "foreign_key", "unique", "[primary_key; unique]"}))
+				cs := []string{"primary_key", "foreign_key", "unique", "[primary_key; unique]"}
+				if x.o.Tricky && x.o.EdgeExtras {
+					cs = append(cs, `"a<b & c"`, `"</text><script>ZQXJ()</script>"`, `"ZQXJ\" onload=\"x"`, `"it's"`)
+				}
+				fmt.Fprintf(&x.sb, " {constraint: %s}", x.pick(cs))
 			}
 			x.sb.WriteString("\n")
 			ends = append(ends, pre+"tbl0."+c)
